@@ -57,6 +57,10 @@ LEVEL_NOTE = ("Tolerance 1e-4 relative to the magnitude of the terms summed "
               "Cases whose float32 keypoint deltas underflow to 0 are "
               "discarded. Shapes bounded as stated in the rule.")
 ASSUMPTIONS = [
+    "pwl_calibration_fn / cdf_fn are called through the public tf.function "
+    "objects for the first 200 cases of a worker process and afterwards "
+    "through a fresh tf.function around the same Python function (the public "
+    "objects never release their traces)",
     "RTL flattening order is the sorted key order ('increasing' before "
     "'unconstrained') used by _rtl_structure; output order is the structure "
     "order with all-unconstrained lattices first",
@@ -112,6 +116,21 @@ def _cmp(out, clause, a, b, tol, sig):
                  float(tol[i])), clause=clause, kind="value", **sig)
     return False
   return True
+
+
+_FN_USES = {}
+
+
+def _entry_point(fn, name, limit=200):
+  """The public tf.function; it keeps every trace alive (about 1 MB per new
+  argument combination), so after `limit` uses per process a fresh tf.function
+  around the same Python function is used instead and freed after the case."""
+  import tensorflow as tf
+  n = _FN_USES.get(name, 0)
+  _FN_USES[name] = n + 1
+  if n < limit or not hasattr(fn, "python_function"):
+    return fn
+  return tf.function(fn.python_function)
 
 
 def _softmax(z):
@@ -400,7 +419,7 @@ def _pwl_cond_tol(x, kp, kernel):
 def _run_pwl(case, out):
   import tensorflow as tf
   import tensorflow_lattice as tfl
-  fn = tfl.conditional_pwl_calibration.pwl_calibration_fn
+  fn = _entry_point(tfl.conditional_pwl_calibration.pwl_calibration_fn, "pwl")
   u, k, b = case["units"], case["k"], case["batch"]
   rs = np.random.RandomState(case["aux"])
   p = k - case["cmin"] - case["cmax"] - case["cyclic"] + (
@@ -589,7 +608,7 @@ def _cdf_case(draw, tier):
 def _run_cdf(case, out):
   import tensorflow as tf
   import tensorflow_lattice as tfl
-  fn = tfl.conditional_cdf.cdf_fn
+  fn = _entry_point(tfl.conditional_cdf.cdf_fn, "cdf")
   sf, units, dim, k, b = (case["sf"], case["units"], case["dim"], case["k"],
                           case["batch"])
   m = units // sf
